@@ -201,16 +201,151 @@ theorem smart_quotes_preserve_characters (enc : PStr) (he : enc ∈ carriers) (m
     rw [← other_bytes_untouched enc mode b (by simpa using hs)]
     exact hp
 
-/-- The observable: when the first known encoding converts the input to a non-empty string — which by
-    `carrier_conversion_total`/`smart_quotes_preserve_characters` is always the case for a carrier with a
-    mode set and non-empty input — that string is `unicode_markup`, without replacement characters, and no
-    other candidate encoding is consulted. -/
-theorem unicode_markup_is_first_conversion (enc : PStr) (rest : List PStr) (mode : Mode) (markup : Bytes) (u : PStr)
-    (h : convertFrom enc mode markup = some u) (hu : u ≠ []) :
-    unicodeMarkup (enc :: rest) mode markup = (some u, false) :=
-  unicodeMarkupWith_first liveTables enc rest mode markup u h hu
+/-! ### The constructor: byte-order marks, declarations, spellings of encoding names, history -/
 
-example : unicodeMarkup [nWindows1252] .none [0x61, 0x81] = (some [0x61, 0xFFFD], true) := of_evalsTo (by decide +kernel)
+/-- The observable `UnicodeDammit(markup, [enc, …], smart_quotes_to=mode)`: when `find_codec` resolves the
+    first known encoding to `r` and `r` converts the BOM-stripped markup, that conversion is
+    `unicode_markup` (no replacement characters, `original_encoding = r`) — whatever byte-order mark the
+    input starts with, whatever encoding the document declares, whatever other encodings were passed. -/
+theorem unicode_markup_is_first_conversion (enc r : PStr) (rest : List PStr) (declared : Option PStr) (mode : Mode)
+    (markup : Bytes) (u : PStr) (hne : markup ≠ []) (hf : findCodec enc = some r)
+    (h : convertFrom r mode (stripBom markup).1 = some u) :
+    unicodeDammit (enc :: rest) declared mode markup = .ok u false (some r) :=
+  unicodeDammitWith_first liveTables enc r rest declared mode markup u hne hf h
+
+example : findCodec (ofS "ISO-8859-1") = some nIso88591 := of_evalsTo (by decide +kernel)
+example : convertFrom nIso88591 .xml (stripBom [0xEF, 0xBB, 0xBF, 0x93]).1 = some (ofS "&#x201C;") :=
+  of_evalsTo (by decide +kernel)
+example : unicodeDammit [nWindows1252] none .none [0x61, 0x81] = .ok [0x61, 0xFFFD] true (some nWindows1252) :=
+  of_evalsTo (by decide +kernel)
+
+/-- `strip_byte_order_mark` removes at most one of the five byte-order marks from the front and nothing
+    else; bytes 0x80–0x9F are never part of what is removed. -/
+theorem stripBom_removes_only_a_bom (markup : Bytes) :
+    ∃ pre, markup = pre ++ (stripBom markup).1 ∧
+      pre ∈ [[], [0xFE, 0xFF], [0xFF, 0xFE], [0xEF, 0xBB, 0xBF], [0, 0, 0xFE, 0xFF], [0xFF, 0xFE, 0, 0]] := by
+  unfold stripBom
+  split
+  · rename_i h; exact ⟨[0xFE, 0xFF], by rw [← h.1, List.take_append_drop], by simp⟩
+  · split
+    · rename_i h; exact ⟨[0xFF, 0xFE], by rw [← h.1, List.take_append_drop], by simp⟩
+    · split
+      · rename_i h; exact ⟨[0xEF, 0xBB, 0xBF], by rw [← h, List.take_append_drop], by simp⟩
+      · split
+        · rename_i h; exact ⟨[0, 0, 0xFE, 0xFF], by rw [← h, List.take_append_drop], by simp⟩
+        · split
+          · rename_i h; exact ⟨[0xFF, 0xFE, 0, 0], by rw [← h, List.take_append_drop], by simp⟩
+          · exact ⟨[], rfl, by simp⟩
+
+example : (stripBom [0xFF, 0xFE, 0x93, 0x00]).1 = [0x93, 0x00] := by decide
+example : (stripBom [0xFF, 0xFE, 0x00, 0x00, 0x93]).1 = [0x93] := by decide
+
+/-- Input that does not start with FE, FF, EF or 00 has no byte-order mark: nothing is stripped. -/
+theorem stripBom_id (b : Nat) (rest : Bytes) (h : b ≠ 0xFE ∧ b ≠ 0xFF ∧ b ≠ 0xEF ∧ b ≠ 0) :
+    stripBom (b :: rest) = (b :: rest, none) := by
+  obtain ⟨h1, h2, h3, h4⟩ := h
+  unfold stripBom
+  have e1 : ¬ ((b :: rest).take 2 = [0xFE, 0xFF] ∧ ((b :: rest).drop 2).take 2 ≠ [0, 0]) := by
+    cases rest <;> simp [h1]
+  have e2 : ¬ ((b :: rest).take 2 = [0xFF, 0xFE] ∧ ((b :: rest).drop 2).take 2 ≠ [0, 0]) := by
+    cases rest <;> simp [h2]
+  have e3 : ¬ ((b :: rest).take 3 = [0xEF, 0xBB, 0xBF]) := by
+    rcases rest with _ | ⟨x, _ | ⟨y, r⟩⟩ <;> simp [h3]
+  have e4 : ¬ ((b :: rest).take 4 = [0, 0, 0xFE, 0xFF]) := by
+    rcases rest with _ | ⟨x, _ | ⟨y, _ | ⟨z, r⟩⟩⟩ <;> simp [h4]
+  have e5 : ¬ ((b :: rest).take 4 = [0xFF, 0xFE, 0, 0]) := by
+    rcases rest with _ | ⟨x, _ | ⟨y, _ | ⟨z, r⟩⟩⟩ <;> simp [h2]
+  simp only [e1, e2, e3, e4, e5, if_false]
+
+/-- A spelling CPython's registry accepts as it stands (and that is not one of the two `CHARSET_ALIASES`
+    keys) is resolved to its lower-cased self — so `ISO-8859-1` or `Windows-1252` in any letter case
+    reach the carrier test as the documented names, while `ISO_8859-1`, `latin-1`, `cp1252` stay what they
+    are and are *not* carriers (the test at dammit.py:942 compares names, not codecs). -/
+theorem findCodec_of_accepted_spelling (name : PStr) (hk : codecKnown name = true)
+    (ha : Gen.Detwingle.charsetAliases.lookup name = none) : findCodec name = some (asciiLower name) := by
+  have hne : name ≠ [] := by
+    intro h; subst h; revert hk; decide +kernel
+  unfold findCodec pyCodec
+  simp [ha, hne, hk]
+
+example : codecKnown (ofS "Windows-1252") = true ∧ Gen.Detwingle.charsetAliases.lookup (ofS "Windows-1252") = none ∧
+    asciiLower (ofS "Windows-1252") = nWindows1252 := by decide +kernel
+example : findCodec (ofS "ISO_8859-1") = some (ofS "iso_8859-1") := of_evalsTo (by decide +kernel)
+example : isCarrier (ofS "iso_8859-1") = false := by decide +kernel
+
+/-- **The smart-quote half of the property at the observable, at full strength.**  For every spelling
+    `enc` that `find_codec` resolves to one of the carrier names, every mode `xml`/`html`, every non-empty
+    byte string `markup` — with or without a byte-order mark, with or without `<`, declarations, other
+    known encodings after the first — `UnicodeDammit(markup, [enc, …], smart_quotes_to=mode).unicode_markup`
+    is the in-order concatenation of one piece per byte of the BOM-stripped markup: a reference
+    un-escaping to the byte's Windows-1252 character for a defined byte 0x80–0x9F, an `&`-free placeholder
+    for an undefined one, the plain decoding for every other byte; no replacement characters. -/
+theorem constructor_preserves_characters (enc r : PStr) (rest : List PStr) (declared : Option PStr)
+    (hf : findCodec enc = some r) (hr : r ∈ carriers) (mode : Mode) (hm : mode = .xml ∨ mode = .html)
+    (markup : Bytes) (hne : markup ≠ []) (hbytes : ∀ b ∈ markup, b < 256) :
+    ∃ pieces, unicodeDammit (enc :: rest) declared mode markup = .ok pieces.flatten false (some r) ∧
+      Bytewise (fun b p =>
+        if isSmart b = true then
+          (match cp1252At b with
+           | some ch => unescapeRef p = some ch
+           | none => 38 ∉ p)
+        else convertFrom r .none [b] = some p) (stripBom markup).1 pieces := by
+  have hsub : ∀ b ∈ (stripBom markup).1, b < 256 := by
+    obtain ⟨pre, hpre, _⟩ := stripBom_removes_only_a_bom markup
+    intro b hb
+    exact hbytes b (by rw [hpre]; simp [hb])
+  obtain ⟨pieces, h1, h2⟩ := smart_quotes_preserve_characters r hr mode hm (stripBom markup).1 hsub
+  exact ⟨pieces, unicode_markup_is_first_conversion enc r rest declared mode markup _ hne hf h1, h2⟩
+
+example : unicodeDammit [ofS "ISO-8859-2", nUtf8] (some nUtf8) .html ([0xEF, 0xBB, 0xBF] ++ ofS "<?xml?>" ++ [0x93])
+    = .ok (ofS "<?xml?>&ldquo;") false (some nIso88592) := of_evalsTo (by decide +kernel)
+
+/-- The same for `ascii`: each byte 0x80–0x9F becomes its documented substitute, every other byte its
+    plain decoding. -/
+theorem constructor_ascii_substitutes (enc r : PStr) (rest : List PStr) (declared : Option PStr)
+    (hf : findCodec enc = some r) (hr : r ∈ carriers) (markup : Bytes) (hne : markup ≠ []) (hbytes : ∀ b ∈ markup, b < 256) :
+    ∃ pieces, unicodeDammit (enc :: rest) declared .ascii markup = .ok pieces.flatten false (some r) ∧
+      Bytewise (fun b p =>
+        if isSmart b = true then liveTables.toAscii.lookup b = some p
+        else convertFrom r .none [b] = some p) (stripBom markup).1 pieces := by
+  have hsub : ∀ b ∈ (stripBom markup).1, b < 256 := by
+    obtain ⟨pre, hpre, _⟩ := stripBom_removes_only_a_bom markup
+    intro b hb
+    exact hbytes b (by rw [hpre]; simp [hb])
+  let f : Nat → PStr := fun b => (convertFrom r .ascii [b]).getD []
+  have hf' : ∀ b ∈ (stripBom markup).1, convertFrom r .ascii [b] = some (f b) := by
+    intro b hb
+    obtain ⟨_, hs⟩ := carrier_conversion_total r hr .ascii (by simp) b (hsub b hb)
+    obtain ⟨p, hp⟩ := Option.isSome_iff_exists.mp hs
+    simp [f, hp]
+  obtain ⟨⟨t, ht⟩, _⟩ := carrier_conversion_total r hr .ascii (by simp) 0 (by omega)
+  have hbw := Bytewise.of_total (R := fun b p => convertFrom r .ascii [b] = some p) f _ hf'
+  refine ⟨_, unicode_markup_is_first_conversion enc r rest declared .ascii markup _ hne hf
+    (convert_is_bytewise r t ht .ascii _ _ hbw), ?_⟩
+  apply hbw.mono
+  intro b p _ hp
+  by_cases hs : isSmart b = true
+  · simp only [hs, if_true]
+    obtain ⟨s, h1, h2, _⟩ := ascii_emits_documented_substitute r hr b hs
+    rw [hp] at h2; simp only [Option.some.injEq] at h2; subst h2; exact h1
+  · simp only [hs, Bool.false_eq_true, if_false]
+    rw [← other_bytes_untouched r .ascii b (by simpa using hs)]
+    exact hp
+
+example : unicodeDammit [nWindows1252] none .ascii (ofS "a" ++ [0x99, 0x85])
+    = .ok (ofS "a(TM)...") false (some nWindows1252) := of_evalsTo (by decide +kernel)
+
+/-- A process as a sequence of constructor calls.  The code-mirror threads the only state the calls
+    could share — none: `tried_encodings` is reset per object (dammit.py:778) and `find_codec` reads only
+    class constants — so every call's outcome is what the same call gives on its own, whatever came
+    before it.  (The harness runs real call histories in one process against fresh-process runs.) -/
+theorem call_outcome_independent_of_history (before : List DammitCall) (c : DammitCall) (after : List DammitCall) :
+    (runCalls (before ++ c :: after))[before.length]? = some (runCall c) := by
+  rw [runCalls_eq_map]; simp
+
+example : runCalls [⟨[ofS "ISO_8859-1"], none, .xml, [0x93]⟩, ⟨[nIso88591], none, .xml, [0x93]⟩]
+    = [.ok [0x93] false (some (ofS "iso_8859-1")), .ok (ofS "&#x201C;") false (some nIso88591)] :=
+  of_evalsTo (by decide +kernel)
 
 example : convertFrom nWindows1252 .html (ofS "a" ++ [0x93, 0xE9, 0x94]) =
     some (ofS "a&ldquo;" ++ [0xE9] ++ ofS "&rdquo;") := of_evalsTo (by decide +kernel)
